@@ -134,6 +134,9 @@ def tr_evaluate_apply(mod):
             got.append(f"<def {s.name}>")
         else:
             got.append(src(s))
+    # the two imposing statements set different keys: either order is the same dict
+    if got[1:3] == [APPLY_ELSE[2], APPLY_ELSE[1]]:
+        got[1:3] = APPLY_ELSE[1:3]
     if got != APPLY_ELSE:
         for a, b in zip(got + ["<end>"], APPLY_ELSE + ["<end>"]):
             if a != b:
